@@ -63,10 +63,9 @@ def satWrite (b : Buf) (n : Nat) (okCls : Bool) (refusedCls : Bool) (post : Obs)
   if n ≤ b.free then okCls && post.free + n == b.free && post.len == b.len + n
   else refusedCls && sameAll b post
 
-/-- C03 for one call -/
-def Sat_C03 (b : Buf) (op : Op) (out : Out) (post : Obs) : Bool :=
+/-- C03 for one call: the call-specific clause -/
+def C03branch (b : Buf) (op : Op) (out : Out) (post : Obs) : Bool :=
   let N := b.mem.length
-  decide (post.ri ≤ post.wi) && decide (post.wi ≤ N) && (post.mem.length == N) &&
   match op with
   | .writeBytes d => satWrite b d.length (out.cls == .ok && out.nums == [d.length]) (out.cls == .refused) post
   | .writeStr d => satWrite b d.length (out.cls == .ok) (out.cls == .refused) post
@@ -99,6 +98,11 @@ def Sat_C03 (b : Buf) (op : Op) (out : Out) (post : Obs) : Bool :=
     -- reads, deframe, try_parse: never reduce the free space; draining reclaims everything
     decide (b.free ≤ post.free) && decide (post.len ≤ b.len) &&
     (if 0 < b.len ∧ post.len = 0 then post.free == N else true)
+
+/-- C03 for one call -/
+def Sat_C03 (b : Buf) (op : Op) (out : Out) (post : Obs) : Bool :=
+  (decide (post.ri ≤ post.wi) && decide (post.wi ≤ b.mem.length) && (post.mem.length == b.mem.length)) &&
+  C03branch b op out post
 
 /-- does the closure script itself violate the contract of `read_byte` / `read_bytes`
     (ask for more than is unread)?  Such closures are outside C04 / C11. -/
